@@ -281,7 +281,7 @@ def protocol(ctx):
     return violations, info, (timers, trace, evs)
 
 
-def validate_protocol_trace(ctx, timers, trace, evs, name):
+def validate_protocol_trace(ctx, timers, trace, evs, name, guard=True):
     tv = tlc.validate_trace(ctx, "TraceRefreshTimer", "TraceRefreshTimer.cfg", trace, env={"VERIF_SCHEDS": timers},
                             timeout=ctx.pick(900, 3000), name="trace_" + name)
     res = tv["res"]
@@ -317,7 +317,7 @@ def validate_protocol_trace(ctx, timers, trace, evs, name):
             desc="recorded autoRefresh.Ensure step is not a step of RefreshTimer.tla / breaks %s (trace line %d)" % (
                 tv["invariant"] or "the next-state relation", line),
             replay={"kind": "protocol", "line": line, "event": ev, "preceding": ctxt, "invariant": tv["invariant"]}))
-    elif len(ensures) - branches["slow"] < max(5, len(ensures) // 2):
+    elif guard and len(ensures) - branches["slow"] < max(5, len(ensures) // 2):
         raise InfraError("too many Ensure passes were too slow to be bracketed (%d of %d): overloaded machine" % (
             branches["slow"], len(ensures)))
     return violations, info
@@ -344,19 +344,20 @@ def corruption_selftest(ctx, qfiles, pfiles):
     if not any(b["i"] == 1 for b in r["bad"]):
         raise InfraError("selftest: a corrupted query record (window start +60s) was NOT rejected")
     notes.append("selftest: corrupted query record (window start +60s) rejected as %s" % [b["why"] for b in r["bad"] if b["i"] == 1][0])
-    # 2. a protocol record: move a recorded nextRefresh by 7 seconds
+    # 2. a protocol record: flip the recorded "the store was contacted" flag of one Ensure pass (whether a pass
+    #    launches is fully determined by the spec; a shifted nextRefresh inside a long window would be allowed)
     if pfiles:
         timers, trace, evs = pfiles
         for i, e in enumerate(evs):
-            if e["ev"] == "Ensure" and not e["slow"] and e["next"] > 0:
+            if e["ev"] == "Ensure" and not e["slow"]:
                 evs2 = [dict(x) for x in evs[:i + 1]]
-                evs2[i]["next"] += 7
+                evs2[i]["attempted"] = not evs2[i]["attempted"]
                 p2 = os.path.join(d, "p_corrupt.ndjson")
                 common.write_ndjson(p2, evs2)
-                v, _ = validate_protocol_trace(ctx, timers, p2, evs2, "selftest")
+                v, _ = validate_protocol_trace(ctx, timers, p2, evs2, "selftest", guard=False)
                 if not v:
-                    raise InfraError("selftest: a corrupted Ensure record (nextRefresh +7s) was NOT rejected")
-                notes.append("selftest: corrupted Ensure record (nextRefresh +7s at line %d) rejected" % (i + 1))
+                    raise InfraError("selftest: a corrupted Ensure record (attempted flipped) was NOT rejected")
+                notes.append("selftest: corrupted Ensure record ('attempted' flipped at line %d) rejected" % (i + 1))
                 break
     return notes
 
